@@ -87,10 +87,10 @@ shape, in particular right-nested or with looser operators below tighter ones - 
 generator configurations: the token list the generator's rule produces is parsed by the
 precedence-climbing algorithm into a tree with exactly the original AST. -/
 theorem generated_reparses (rp : Bool) (t : BT) (h : AllOps prec t) (k : List PT) (hk : StopAt prec 0 k) :
-    ∃ f0, ∀ f, f0 ≤ f →
+    ∀ f, 2 * (genP prec rp t).size ≤ f →
       ∃ t', climb prec f 0 none ((genP prec rp t).toks ++ k) = some (t', k) ∧ toVal t' = toVal t := by
-  obtain ⟨f0, hf0⟩ := climb_correct prec (genP prec rp t) 0
+  have hf0 := climb_correct prec (genP prec rp t) 0
     (WF.weaken prec (wf_genP prec rp t h) (Nat.zero_le _)) k hk
-  exact ⟨f0, fun f hf => ⟨_, hf0 f hf, toVal_genP prec rp t⟩⟩
+  exact fun f hf => ⟨_, hf0 f hf, toVal_genP prec rp t⟩
 
 end PycModel.GenParen
